@@ -182,7 +182,7 @@ def run_first(case):
 class C20(Check):
     ID = "C20"
     IMPORTS = "From PV Require Import Base.ListX Model.Crowding Model.Fallback Model.Spacing."
-    RULE = ("SpacingIndicator(metric, pf, zero_to_one, ideal, nadir).do(F) on point sets of 2..40 points (quick) / 2..150 (thorough), 1..5 objectives, grid-valued, continuous, "
+    RULE = ("SpacingIndicator(metric, pf, zero_to_one, ideal, nadir).do(F) on point sets of 2..40 points (quick) / 2..150 (thorough) (plus, every 150 cases, one set of 513..1030 points judged by the independent reference only), 1..5 objectives, grid-valued, continuous, "
             "with duplicates, equally spaced, with ranges that are tiny relative to the objective's magnitude; metrics cityblock / euclidean / sqeuclidean / chebyshev (pdist modelled) and canberra (distance matrix as oracle); normalisation "
             "off / ideal+nadir / derived from a Pareto front / mixed, with ideal = nadir in one dimension; compared bit-for-bit with the model (normalisation, distance matrix, "
             "second-smallest entry, NumPy pairwise summation, sqrt); independent formula, permutation / translation / scaling checks on the implementation; one indicator object called twice with the same array object whose contents changed in between; in 40% of the cases differently configured indicator objects have been applied to the same points before; "
@@ -195,10 +195,25 @@ class C20(Check):
 
     def gen(self, n):
         mx = 40 if self.tier == "quick" else 150
-        for _ in range(n):
+        for i in range(n):
+            if i % 150 == 5:
+                # a large point set (more points than any block / chunk size an implementation is likely to use): judged by the independent
+                # reference only, the quadratic distance matrix is too large a literal for the model evaluation
+                N = self.rng.choice([513, 600, 777, 1030]); M = self.rng.randint(1, 3)
+                style = self.rng.choice(["cont", "equispaced"])
+                F = [[self.rng.random() for _ in range(M)] for _ in range(N)] if style == "cont" else [[float(k)] + [float(N - k)] * (M - 1) for k in range(N)]
+                yield {"F": F, "metric": self.rng.choice(["cityblock", "euclidean", "chebyshev"]), "norm": "none", "style": style, "seed": self.rng.randrange(2 ** 31), "large": True}
+                continue
             yield gen_case(self.rng, mx)
 
     def run(self, case):
+        if case.get("large"):
+            from pymoode.performance._spacing import SpacingIndicator
+            F = np.array(case["F"], dtype=float); F0 = F.copy()
+            S = float(SpacingIndicator(metric=case["metric"]).do(F))
+            perm = np.random.RandomState(case["seed"]).permutation(len(F))
+            Sp = float(SpacingIndicator(metric=case["metric"]).do(F[perm]))
+            return {"S": S.hex(), "S_perm": Sp.hex(), "frame": bool(np.array_equal(F, F0))}
         o = run_case(case); o.update(run_first(case))
         return o
 
@@ -215,6 +230,15 @@ class C20(Check):
 
     def oracle(self, case, obs):
         S = float.fromhex(obs["S"])
+        if case.get("large"):
+            if not obs["frame"]:
+                return "C20-frame: the caller's array was modified"
+            ref = ref_spacing(np.array(case["F"], dtype=float), case["metric"])
+            if ref is not None and abs(S - ref) > 1e-9 * max(1.0, abs(ref)):
+                return "C20-formula: spacing %r of %d points differs from the RMS deviation of nearest-neighbour distances %r" % (S, len(case["F"]), ref)
+            if abs(float.fromhex(obs["S_perm"]) - S) > 1e-9 * max(1.0, abs(S)):
+                return "C20-permutation: reordering %d points changed the value from %r to %r" % (len(case["F"]), S, float.fromhex(obs["S_perm"]))
+            return None
         if case["metric"] not in MODELLED and ref_spacing(decarr(obs["Xn"], 2), case["metric"]) is None:
             return None          # the metric is undefined (NaN / inf distances) on these points
         if not obs["frame"]:
@@ -256,6 +280,8 @@ class C20(Check):
         return None
 
     def coq(self, case, obs):
+        if case.get("large"):
+            return None
         F = np.array(case["F"], dtype=float)
         Xn = decarr(obs["Xn"], 2); D = decarr(obs["D"], 2)
         if case["metric"] not in MODELLED and not np.all(np.isfinite(D)):
@@ -281,7 +307,7 @@ class C20(Check):
         return len(case["F"]) >= 3
 
     def classes(self, case, obs):
-        return [case["metric"], case["norm"], case["style"], "n>=8" if len(case["F"]) >= 8 else "n<8"] + (["n>128"] if len(case["F"]) > 128 else [])
+        return [case["metric"], case["norm"], case["style"], "n>=8" if len(case["F"]) >= 8 else "n<8"] + (["n>128"] if len(case["F"]) > 128 else []) + (["n>512-reference-only"] if case.get("large") else [])
 
 
 if __name__ == "__main__":
